@@ -14,7 +14,7 @@ def setup():
     _float = float
     world.rebind(C, np=symnp, pd=sympd, Parallel=stubs.SParallel, delayed=stubs.sdelayed, os=vfs.os_shim, str=s_str, all=lambda x: symnp.all(x) if hasattr(x, "items") else all_(x))
     world.rebind(W, np=symnp, pd=sympd)
-    world.rebind(U, np=symnp, pd=sympd, float=lambda x: x if isinstance(x, core.Sym) else _float(x))
+    world.rebind(U, np=symnp, pd=sympd, pq=vfs.pq_stub, float=lambda x: x if isinstance(x, core.Sym) else _float(x))
     world.rebind(T, np=symnp, pd=sympd, pq=vfs.pq_stub, pa=vfs.pa_stub)
     world.rebind(D, np=symnp, pd=sympd)
     world.rebind(Q, np=symnp)
